@@ -2,6 +2,7 @@ package rules
 
 import (
 	"fmt"
+	"go/token"
 	"go/types"
 	"sort"
 	"strings"
@@ -387,4 +388,421 @@ func matchedIsSticky(c *Ctx, rule string) {
 		}
 	}
 	R.Role(rule, "flags carried around matchRegex's pattern scan", n, 1)
+}
+
+// tableWritesOf: the map- or slice-typed Policy fields that fn updates (map updates through a loaded field, stores of
+// a new map/slice value into the field), directly or through the module functions it calls (init excluded: it creates
+// every table of a policy that has none yet).
+func tableWritesOf(c *Ctx, fn *ssa.Function) map[string]string {
+	out := map[string]string{}
+	seen := map[*ssa.Function]bool{}
+	var visit func(f *ssa.Function, via string, d int)
+	visit = func(f *ssa.Function, via string, d int) {
+		if f == nil || seen[f] || d > 4 || len(f.Blocks) == 0 {
+			return
+		}
+		seen[f] = true
+		for _, b := range f.Blocks {
+			for _, in := range b.Instrs {
+				switch x := in.(type) {
+				case *ssa.MapUpdate:
+					if fld := model.LoadedPolicyField(x.Map); fld != "" {
+						out[fld] = via + c.P.Pos(x.Pos())
+					}
+				case *ssa.Store:
+					if fld := model.PolicyField(x.Addr); fld != "" {
+						switch x.Val.Type().Underlying().(type) {
+						case *types.Map, *types.Slice:
+							out[fld] = via + c.P.Pos(x.Pos())
+						}
+					}
+				case ssa.CallInstruction:
+					cal := x.Common().StaticCallee()
+					if cal == nil || cal.Pkg == nil || cal.Pkg.Pkg.Path() != "github.com/microcosm-cc/bluemonday" {
+						continue
+					}
+					if cal.Name() == "init" && cal.Signature.Recv() != nil {
+						continue
+					}
+					visit(cal, via+pa.CalleeName(cal)+" → ", d+1)
+				}
+			}
+		}
+	}
+	visit(fn, "", 0)
+	return out
+}
+
+// patternBuildersStayInLane: a builder that registers a pattern (AllowURLSchemesMatching, AllowElementsMatching, the
+// OnElementsMatching methods) updates the pattern tables only.  The sanitiser consults exact-name entries before
+// patterns, and an exact-name entry carries more than a pattern can express (a custom URL check, per-element rules):
+// a pattern builder that also edits an exact-name table changes — or wipes — what was registered under the name.
+func patternBuildersStayInLane(c *Ctx, rule, consequence string) {
+	R := c.R
+	F := model.FindFields(c.P)
+	lanes := []struct {
+		fn    string
+		roles []string
+	}{
+		{"(*Policy).AllowURLSchemesMatching", []string{"allowURLSchemeRegexps"}},
+		{"(*Policy).AllowElementsMatching", []string{"elsMatchingAndAttrs"}},
+		{"(*attrPolicyBuilder).OnElementsMatching", []string{"elsMatchingAndAttrs", "bareRegexps"}},
+		{"(*stylePolicyBuilder).OnElementsMatching", []string{"elsMatchingAndStyles"}},
+	}
+	n := 0
+	for _, l := range lanes {
+		fn := c.P.Func("github.com/microcosm-cc/bluemonday", l.fn)
+		if fn == nil {
+			R.Unknown(rule, "lane:"+l.fn, l.fn, "", "builder not found")
+			continue
+		}
+		allowed := map[string]bool{}
+		for _, r := range l.roles {
+			if f := F.Get(r); f != "" {
+				allowed[f] = true
+			}
+		}
+		var bad []string
+		ws := tableWritesOf(c, fn)
+		for f, where := range ws {
+			if !allowed[f] {
+				bad = append(bad, f+" (at "+where+")")
+			}
+		}
+		sort.Strings(bad)
+		n++
+		R.Check(len(bad) == 0, rule, "lane:"+l.fn, l.fn+": tables updated", c.P.Pos(fn.Pos()), fmt.Sprintf("only its pattern table(s) among %d table updates", len(ws)), "a pattern builder also updates "+strings.Join(bad, ", ")+": "+consequence)
+	}
+	R.Role(rule, "pattern builders examined", n, 4)
+}
+
+// defaultHandlerLastResort: in the style builders the default handler of the property (css.GetDefaultHandler) is stored
+// into a rule only when the user supplied no matcher at all — handler nil, enum empty and regexp nil.  sanitizeStyles
+// consults a rule's handler first: a default handler stored next to the user's enum or regexp overrides it.
+func defaultHandlerLastResort(c *Ctx, rule string) {
+	R := c.R
+	gdh := c.P.Func("github.com/microcosm-cc/bluemonday/css", "GetDefaultHandler")
+	n := 0
+	for _, name := range []string{"(*stylePolicyBuilder).OnElements", "(*stylePolicyBuilder).OnElementsMatching", "(*stylePolicyBuilder).Globally"} {
+		fn := c.P.Func("github.com/microcosm-cc/bluemonday", name)
+		if fn == nil || gdh == nil {
+			R.Unknown(rule, "default-last:"+name, name, "", "builder or css.GetDefaultHandler not found")
+			continue
+		}
+		A := model.NewAnalysis(fn)
+		translateAll(A)
+		recv := ssa.Value(fn.Params[0])
+		fieldOfRecv := func(v ssa.Value) string {
+			u, ok := v.(*ssa.UnOp)
+			if !ok {
+				return ""
+			}
+			fa, ok := u.X.(*ssa.FieldAddr)
+			if !ok {
+				return ""
+			}
+			// the builder's own field, or the same-named field of the rule value being filled (testing the rule for
+			// "no matcher yet" is as good)
+			if fa.X != recv && !strings.HasSuffix(fa.X.Type().String(), ".stylePolicy") {
+				return ""
+			}
+			return pa.FieldName(fa)
+		}
+		var hNil, rNil, eEmpty []int
+		for i, at := range A.Atoms {
+			switch at.Kind {
+			case "eq":
+				if k, ok := at.Y.(*ssa.Const); ok && k.IsNil() {
+					switch fieldOfRecv(at.X) {
+					case "handler":
+						hNil = append(hNil, i)
+					case "regexp":
+						rNil = append(rNil, i)
+					}
+				}
+			case "len0":
+				if fieldOfRecv(at.X) == "enum" {
+					eEmpty = append(eEmpty, i)
+				}
+			}
+		}
+		var stores []*ssa.Store
+		for _, b := range fn.Blocks {
+			for _, in := range b.Instrs {
+				st, ok := in.(*ssa.Store)
+				if !ok {
+					continue
+				}
+				fa, ok := st.Addr.(*ssa.FieldAddr)
+				if !ok || pa.FieldName(fa) != "handler" || !strings.HasSuffix(fa.X.Type().String(), ".stylePolicy") {
+					continue
+				}
+				if cl, ok := st.Val.(*ssa.Call); ok && cl.Common().StaticCallee() == gdh {
+					stores = append(stores, st)
+				}
+			}
+		}
+		if len(stores) == 0 {
+			continue
+		}
+		if len(hNil) == 0 || len(rNil) == 0 || len(eEmpty) == 0 {
+			R.Fail(rule, "default-last:"+name, name+": store of the property's default handler", c.P.Pos(stores[0].Pos()), fmt.Sprintf("the default handler is stored without all three of the user's matchers having been tested (handler==nil tested: %v, enum empty tested: %v, regexp==nil tested: %v): it can end up next to a matcher the user supplied and override it", len(hNil) > 0, len(eEmpty) > 0, len(rNil) > 0))
+			n++
+			continue
+		}
+		track := append(append(append([]int{}, hNil...), rNil...), eEmpty...)
+		q, err := A.NewQuery(track)
+		if err != nil {
+			R.Unknown(rule, "default-last:"+name, name, "", err.Error())
+			continue
+		}
+		q.Run(fn.Blocks[0], nil)
+		for i, st := range stores {
+			n++
+			s := q.StateAt(st)
+			if s == nil {
+				continue
+			}
+			ok, cex := q.Holds(s, pa.And(orAtoms(hNil), orAtoms(rNil), orAtoms(eEmpty)))
+			R.Check(ok, rule, fmt.Sprintf("default-last:%s#%d", name, i+1), name+": store of the property's default handler", c.P.Pos(st.Pos()), "only when handler, enum and regexp were all left unset", "the default handler can be stored although the user supplied a matcher (an enum or a regexp): sanitizeStyles consults the handler first, so the user's matcher is ignored — values it rejects are kept and values it accepts can be dropped: ["+cex+"]")
+		}
+	}
+	R.Role(rule, "stores of the default handler in the style builders", n, 1)
+}
+
+// allowIFramesRequiresSandbox (C12.R7): the helper bundle AllowIFrames(vals...) installs the sandbox requirement on
+// every path: each return is dominated by a call of RequireSandboxOnIFrame that is handed the helper's own vals.
+func allowIFramesRequiresSandbox(c *Ctx, rule string) {
+	R := c.R
+	fn := c.P.Func("github.com/microcosm-cc/bluemonday", "(*Policy).AllowIFrames")
+	req := c.P.Func("github.com/microcosm-cc/bluemonday", "(*Policy).RequireSandboxOnIFrame")
+	if fn == nil || req == nil {
+		R.Unknown(rule, "AllowIFrames", "(*Policy).AllowIFrames", "", "AllowIFrames or RequireSandboxOnIFrame not found")
+		return
+	}
+	var calls []*ssa.Call
+	for _, b := range fn.Blocks {
+		for _, in := range b.Instrs {
+			if cl, ok := in.(*ssa.Call); ok && cl.Common().StaticCallee() == req {
+				args := cl.Common().Args
+				if len(args) == 2 && args[0] == ssa.Value(fn.Params[0]) && args[1] == ssa.Value(fn.Params[1]) {
+					calls = append(calls, cl)
+				}
+			}
+		}
+	}
+	n := 0
+	for _, b := range fn.Blocks {
+		ret, ok := b.Instrs[len(b.Instrs)-1].(*ssa.Return)
+		if !ok {
+			continue
+		}
+		n++
+		okR := false
+		for _, cl := range calls {
+			if cl.Block().Dominates(b) {
+				okR = true
+			}
+		}
+		R.Check(okR, rule, fmt.Sprintf("AllowIFrames:return#%d", n), "(*Policy).AllowIFrames: return", c.P.Pos(ret.Pos()), "after RequireSandboxOnIFrame(vals...)", "AllowIFrames can return without having installed the sandbox requirement with its own values: iframes then keep whatever sandbox tokens the input carries (or none)")
+	}
+	R.Role(rule, "returns of AllowIFrames", n, 1)
+}
+
+// buildersReadOnlyTheirOwnTables (C17.R9): an exported builder consults no rule table other than the ones it updates
+// itself.  What a builder call adds must not depend on what other tables hold at that moment (a "this rule would be
+// redundant" shortcut that looks at the global rules, a guard keyed on another table): otherwise the policy depends on
+// the order of the calls and not on the set of rules.
+func buildersReadOnlyTheirOwnTables(c *Ctx, rule string) {
+	R := c.R
+	isTable := func(fa *ssa.FieldAddr) bool {
+		pt, ok := fa.Type().Underlying().(*types.Pointer)
+		if !ok {
+			return false
+		}
+		switch pt.Elem().Underlying().(type) {
+		case *types.Map, *types.Slice:
+			return true
+		}
+		return false
+	}
+	n := 0
+	for _, fn := range moduleFuncs(c.P) {
+		if fn.Pkg == nil || fn.Pkg.Pkg.Path() != "github.com/microcosm-cc/bluemonday" || fn.Signature.Recv() == nil || fn.Object() == nil || !fn.Object().Exported() {
+			continue
+		}
+		rt := fn.Signature.Recv().Type().String()
+		if !strings.HasSuffix(rt, ".Policy") && !strings.HasSuffix(rt, "PolicyBuilder") {
+			continue
+		}
+		if strings.HasPrefix(fn.Name(), "Sanitize") {
+			continue
+		}
+		writes := map[string]bool{}
+		reads := map[string]string{}
+		for _, b := range fn.Blocks {
+			for _, in := range b.Instrs {
+				switch x := in.(type) {
+				case *ssa.MapUpdate:
+					if f := model.LoadedPolicyField(x.Map); f != "" {
+						writes[f] = true
+					}
+				case *ssa.Store:
+					if f := model.PolicyField(x.Addr); f != "" {
+						if fa, ok := x.Addr.(*ssa.FieldAddr); ok && isTable(fa) {
+							writes[f] = true
+						}
+					}
+				case *ssa.Call:
+					if bi, ok := x.Common().Value.(*ssa.Builtin); ok && bi.Name() == "delete" && len(x.Common().Args) == 2 {
+						if f := model.LoadedPolicyField(x.Common().Args[0]); f != "" {
+							writes[f] = true
+						}
+					}
+				}
+			}
+		}
+		for _, b := range fn.Blocks {
+			for _, in := range b.Instrs {
+				u, ok := in.(*ssa.UnOp)
+				if !ok {
+					continue
+				}
+				fa, ok := u.X.(*ssa.FieldAddr)
+				if !ok || model.PolicyField(fa) == "" || !isTable(fa) || u.Referrers() == nil {
+					continue
+				}
+				f := model.PolicyField(fa)
+				for _, r := range *u.Referrers() {
+					switch y := r.(type) {
+					case *ssa.Lookup, *ssa.Range:
+						reads[f] = c.P.Pos(r.Pos())
+					case *ssa.Call:
+						if bi, ok := y.Common().Value.(*ssa.Builtin); ok && bi.Name() == "len" {
+							reads[f] = c.P.Pos(r.Pos())
+						}
+					case *ssa.IndexAddr:
+						reads[f] = c.P.Pos(r.Pos())
+					}
+				}
+			}
+		}
+		if len(reads) == 0 && len(writes) == 0 {
+			continue
+		}
+		n++
+		var bad []string
+		for f, where := range reads {
+			if !writes[f] {
+				bad = append(bad, f+" (read at "+where+")")
+			}
+		}
+		sort.Strings(bad)
+		R.Check(len(bad) == 0, rule, "builder:"+pa.CalleeName(fn), pa.CalleeName(fn)+": rule tables consulted", c.P.Pos(fn.Pos()), "only the tables it updates", "the builder consults "+strings.Join(bad, ", ")+", a table it does not update: what this call registers depends on what other calls registered before it — the same set of rules can give different policies depending on call order")
+	}
+	R.Role(rule, "exported builders that touch rule tables", n, 8)
+}
+
+// noPolicyCopies: a Policy is never copied by value.  `q := *p` gives q every map and slice of p by reference: rules
+// added to the one appear in the other (a "clone" that forgets to copy a table, a cached prototype handed out by value).
+func noPolicyCopies(c *Ctx, rule, consequence string) {
+	R := c.R
+	n := 0
+	for _, fn := range moduleFuncs(c.P) {
+		if fn.Pkg == nil || fn.Pkg.Pkg.Path() != "github.com/microcosm-cc/bluemonday" {
+			continue
+		}
+		cnt := 0
+		for _, b := range fn.Blocks {
+			for _, in := range b.Instrs {
+				u, ok := in.(*ssa.UnOp)
+				if !ok || u.Op != token.MUL {
+					continue
+				}
+				nt, ok := u.Type().(*types.Named)
+				if !ok || nt.Obj().Name() != "Policy" || nt.Obj().Pkg() == nil || nt.Obj().Pkg().Path() != "github.com/microcosm-cc/bluemonday" {
+					continue
+				}
+				cnt++
+				n++
+				R.Fail(rule, fmt.Sprintf("policy-copy:%s#%d", pa.CalleeName(fn), cnt), pa.CalleeName(fn)+": a Policy value is loaded as a whole", c.P.Pos(u.Pos()), "a Policy is copied by value: the copy shares every rule table with the original — "+consequence)
+			}
+		}
+	}
+	if n == 0 {
+		R.OK(rule, "policy-copy:none", "module functions: no load of a whole Policy value", "", "policies are only handled through pointers")
+	}
+}
+
+// parsesWhatItWasGiven: in validURL the string handed to url.Parse derives from the parameter only through
+// strings.TrimSpace, slicing / concatenation and the removal of CR / LF (strings.Replace*, a Replacer) guided by a
+// FindString prefix — nothing that decodes or re-cases the value.  Decoding before the parse (html.UnescapeString,
+// url.QueryUnescape, ToLower …) makes the emitted URL the image of another string than the attribute value, and each
+// further pass applies the transformation again.
+func parsesWhatItWasGiven(c *Ctx, rule string) {
+	R := c.R
+	fn := c.P.Func("github.com/microcosm-cc/bluemonday", "(*Policy).validURL")
+	if fn == nil || len(fn.Params) < 2 {
+		R.Unknown(rule, "validURL", "(*Policy).validURL", "", "function not found")
+		return
+	}
+	param := ssa.Value(fn.Params[1])
+	allowed := map[string]bool{"strings.TrimSpace": true, "strings.Replace": true, "strings.ReplaceAll": true, "(*strings.Replacer).Replace": true,
+		"(*regexp.Regexp).FindString": true, "strings.TrimRight": true, "strings.TrimLeft": true, "strings.Trim": true, "strings.NewReplacer": true}
+	n := 0
+	for _, b := range fn.Blocks {
+		for _, in := range b.Instrs {
+			cl, ok := in.(*ssa.Call)
+			if !ok || cl.Common().StaticCallee() == nil || pa.CalleeName(cl.Common().StaticCallee()) != "url.Parse" {
+				continue
+			}
+			n++
+			bad := ""
+			seen := map[ssa.Value]bool{}
+			var walk func(v ssa.Value)
+			walk = func(v ssa.Value) {
+				if seen[v] || bad != "" || v == param {
+					return
+				}
+				seen[v] = true
+				switch x := v.(type) {
+				case *ssa.Const, *ssa.Global:
+				case *ssa.Phi:
+					for _, e := range x.Edges {
+						walk(e)
+					}
+				case *ssa.BinOp:
+					walk(x.X)
+					walk(x.Y)
+				case *ssa.Slice:
+					walk(x.X)
+				case *ssa.UnOp:
+					walk(x.X)
+				case *ssa.Call:
+					cal := x.Common().StaticCallee()
+					if cal == nil {
+						if bi, ok := x.Common().Value.(*ssa.Builtin); ok && bi.Name() == "len" {
+							return
+						}
+						bad = "a dynamic call at " + c.P.Pos(x.Pos())
+						return
+					}
+					if !allowed[pa.CalleeName(cal)] {
+						bad = pa.CalleeName(cal) + " at " + c.P.Pos(x.Pos())
+						return
+					}
+					for _, a := range x.Common().Args {
+						if bt, ok := a.Type().Underlying().(*types.Basic); ok && bt.Info()&types.IsString != 0 {
+							walk(a)
+						}
+					}
+				default:
+					bad = fmt.Sprintf("%T at %s", v, c.P.Pos(v.Pos()))
+				}
+			}
+			walk(cl.Common().Args[0])
+			R.Check(bad == "", rule, fmt.Sprintf("validURL:parse#%d", n), "(*Policy).validURL: argument of url.Parse", c.P.Pos(cl.Pos()), "the attribute value, trimmed (CR/LF removed inside data URIs)", "the value is transformed by "+bad+" before it is parsed: the URL that is emitted is the re-serialisation of another string than the attribute's value, and sanitising the output again applies the transformation once more")
+		}
+	}
+	R.Role(rule, "calls of url.Parse in validURL", n, 1)
 }
